@@ -300,6 +300,7 @@ def _hyp_campaign(mod, sub: Hyp, tier, seed, shard, nshards, part: Part, known_e
 
                 machine = sub.strategy()
                 machine._verif_part = part  # machines record through this
+                machine._first = None  # machines store their first Violation here (dict bucket/msg/case)
                 st2 = settings(st, stateful_step_count=sub.step_count)
                 run_state_machine_as_test(hypothesis.seed(shard_seed + 7919 * round_no)(machine), settings=st2)
             else:
@@ -316,6 +317,10 @@ def _hyp_campaign(mod, sub: Hyp, tier, seed, shard, nshards, part: Part, known_e
             # same case means the library's answer depended on earlier calls in this process. The first
             # failing execution was a real violation on a real input: report it, with the calls before it.
             f = state["first"]
+            if f is None and sub.stateful:
+                f = getattr(sub.strategy(), "_first", None)
+                if f is not None:
+                    f = dict(f, history=[])
             if f is None:
                 part.error = f"harness: flaky generator in {sub.name}: {e}"
                 return
